@@ -23,8 +23,25 @@ understood / absent) may refuse to pack with its explicit TypeError.
 The serialisation of a parsed object is never longer than what the parse consumed (the first parse may consume
 more: normalisation; never less).
 
+Object re-use.  "Any message object obtained by parsing bytes" includes an object that has been used before:
+unpack() must make the receiver describe the bytes just parsed and nothing else.  For every subject, with B ranging
+over the same encodings and A over those plus truncated and otherwise refused ones:
+  * chains  : ONE receiver unpacks a long shuffled sequence of encodings (parsed, packed and sized after each step;
+              refused unpacks stay in the sequence), after every step it must be indistinguishable from a fresh
+              object that parsed only the last encoding: same consumed count, field values and value types, the same
+              pack() bytes or the same refusal, the same calcsize();
+  * pairs   : the encodings are grouped by shape (which members are None / empty / of which class, length classes of
+              the variable parts, recognised or unknown enumeration values, parse refused with which exception,
+              pack() refused or not) and, separately, by the values of their enumeration / boolean / small-integer
+              fields; for ordered pairs of groups (all of them while the budget allows)
+              `o = Class(); o.unpack(A); o.unpack(B)` against `Class().unpack(B)`, A also through the validating
+              form of MessageHeader.unpack.
+A difference is minimised to the shortest history that reproduces it on a new object and reported as
+`stale-state:<what differs>` with that history as replay.
+
 Everything here is deterministic in (seed, subject name); one subject = one work item for the pool.
 """
+import enum
 import math
 import random
 import struct
@@ -63,6 +80,48 @@ def diff_fields(c1, c2):
     return sorted(k for k in set(f1) | set(f2) if f1.get(k, '<absent>') != f2.get(k, '<absent>'))
 
 
+_LEAF = (bool, int, float, str, bytes, bytearray, memoryview)
+
+
+def _tname(o):
+    t = type(o)
+    if t in (list, tuple, dict):
+        return t.__name__
+    return '/'.join(c.__name__ for c in t.__mro__[:3] if c not in (object, tuple, list, dict))
+
+
+def tsig(o, coarse=False, depth=0):
+    """The types of an object graph: canon() flattens named tuples to plain lists, so two different configuration
+    classes with the same numbers in them compare equal there.  coarse=True is the *shape* of the value, used to group
+    encodings: None or not, empty or not, class names, recognised enumeration member or bare number, list lengths as
+    0 / 1 / 2 / more with the distinct element shapes."""
+    if o is None:
+        return 'None'
+    if isinstance(o, enum.Enum):
+        return 'enum'
+    if isinstance(o, _LEAF):
+        if coarse and isinstance(o, (str, bytes, bytearray, memoryview)):
+            return 'text' if len(o) else 'empty'
+        return ''
+    if depth > 12:
+        return '<deep>'
+    if hasattr(o, 'dtype') and hasattr(o, 'shape'):
+        return '' if not coarse else 'arr%s' % (tuple(o.shape),)
+    if isinstance(o, dict):
+        kids = [(str(k), tsig(v, coarse, depth + 1)) for k, v in sorted(o.items(), key=lambda kv: str(kv[0]))
+                if not (isinstance(k, str) and k.startswith('_io'))]
+        return (_tname(o), tuple(kids))
+    if isinstance(o, (list, tuple)):
+        kids = [tsig(x, coarse, depth + 1) for x in o]
+        if coarse and type(o) in (list, tuple) or (coarse and len(kids) > 8):
+            return (_tname(o), min(len(kids), 3), tuple(sorted(set(repr(k) for k in kids))))
+        return (_tname(o), tuple(kids))
+    d = getattr(o, '__dict__', None)
+    if isinstance(d, dict):
+        return (_tname(o), tuple((k, tsig(v, coarse, depth + 1)) for k, v in sorted(d.items()) if not k.startswith('__')))
+    return _tname(o)
+
+
 # ---------------------------------------------------------------------------------------------------------
 # subjects
 class Subject:
@@ -81,6 +140,18 @@ class Subject:
         o = self.new()
         n = o.unpack(buf, off)
         return o, n
+
+    # ---- re-use: a receiver is the thing that carries state from one parse to the next
+    def receiver(self):
+        return self.new()
+
+    def unpack_with(self, recv, buf, off):
+        n = recv.unpack(buf, off)
+        return recv, n
+
+    def unpack_strict(self, recv, buf, off):
+        """a validating form of unpack (may refuse after it has started to update the receiver); None: there is none"""
+        return None
 
     def pack(self, o):
         return bytes(o.pack())
@@ -101,6 +172,11 @@ class Subject:
 class TimestampSubject(Subject):
     def pack(self, o):
         return bytes(o.pack(return_buffer=True))
+
+
+class HeaderSubject(Subject):
+    def unpack_strict(self, recv, buf, off):
+        return recv.unpack(buf, off, validate_sync=True, validate_crc=True, warn_on_unrecognized=False)
 
 
 class ContainerSubject(Subject):
@@ -132,6 +208,16 @@ class AdapterSubject(Subject):
         r = self.wrapped.parse(bytes(buf[off:]))
         return r.v, r.n
 
+    def receiver(self):
+        # the adapter itself is the only thing that lives from one parse to the next; there is no way to make a new
+        # one, so for sub-payloads the re-use checks say "the same bytes give the same value whatever was parsed
+        # before"; the containers (SetConfigMessage, ConfigResponseMessage, FaultControlMessage) re-use real objects
+        return self.wrapped
+
+    def unpack_with(self, recv, buf, off):
+        r = recv.parse(bytes(buf[off:]))
+        return r.v, r.n
+
     def pack(self, o):
         return bytes(self.cls.build(o))
 
@@ -154,7 +240,7 @@ def all_subjects():
         if n in ('InputDataWrapperMessage', 'STA5635IQData'):
             s.greedy = True
         subs.append(s)
-    subs.append(Subject('MessageHeader', MessageHeader))
+    subs.append(HeaderSubject('MessageHeader', MessageHeader))
     subs.append(TimestampSubject('Timestamp', Timestamp))
     subs.append(Subject('MeasurementDetails', MeasurementDetails))
     subs.append(Subject('SatelliteInfo', solution.SatelliteInfo))
@@ -987,6 +1073,210 @@ def signature(name, kind, detail):
     return s
 
 
+# ---------------------------------------------------------------------------------------------------------
+# object re-use
+def observe(subj, recv, buf, off):
+    """everything the property lets one see of `recv` after recv.unpack(buf, off)"""
+    try:
+        o, n = subj.unpack_with(recv, buf, off)
+    except Exception as e:
+        return {'res': ('err', type(e).__name__)}
+    ob = {'res': ('ok', int(n)), 'val': cval(o), 'types': tsig(o)}
+    try:
+        ob['pack'] = ('ok', subj.pack(o))
+    except Exception as e:
+        ob['pack'] = ('err', type(e).__name__)
+    try:
+        ob['size'] = ('ok', subj.calcsize(o))
+    except Exception as e:
+        ob['size'] = ('err', type(e).__name__)
+    return ob
+
+
+def shape_key(subj, buf, off, fresh):
+    if fresh['res'][0] == 'err':
+        return ('err', fresh['res'][1])
+    o, _ = subj.unpack_with(subj.receiver(), buf, off)
+    return ('ok', tsig(o, coarse=True), fresh['pack'][0])
+
+
+def value_key(fresh):
+    """second grouping: the values of the enumeration / boolean / absent / small-integer top-level fields (the ones
+    branches are taken on)"""
+    if fresh['res'][0] == 'err':
+        return ('err', fresh['res'][1])
+    key = []
+    for k, v in sorted(fields_of(fresh['val']).items()):
+        if v is None or isinstance(v, bool):
+            key.append((k, v))
+        elif isinstance(v, tuple) and len(v) == 3 and v[0] == 'enum':
+            key.append((k, v[2]))
+        elif isinstance(v, int):
+            key.append((k, v if v < 4 else 'n'))
+    return ('ok', tuple(key))
+
+
+def reuse_diff(fresh, got):
+    """None, or (detail, text): how a re-used receiver differs from a fresh object after parsing the same bytes.
+    Nothing is required when the fresh object refuses the bytes."""
+    if fresh['res'][0] == 'err':
+        return None
+    if got['res'][0] == 'err':
+        return 'unpack', 'unpack() raises %s on the re-used object, a new object parses the bytes' % got['res'][1]
+    if got['res'][1] != fresh['res'][1]:
+        return 'consumed', 'unpack() reports %d bytes consumed on the re-used object, %d on a new one' % (got['res'][1], fresh['res'][1])
+    if got['val'] != fresh['val']:
+        df = diff_fields(fresh['val'], got['val'])
+        f1, f2 = fields_of(fresh['val']), fields_of(got['val'])
+        return (','.join(df) or 'value'), 'field(s) %s: re-used object %s, new object %s' % (
+            df, [str(f2.get(k, '<absent>'))[:80] for k in df][:3], [str(f1.get(k, '<absent>'))[:80] for k in df][:3])
+    if got['types'] != fresh['types']:
+        return 'type', 'equal numbers in values of different classes: re-used object %s, new object %s' % (
+            str(got['types'])[:160], str(fresh['types'])[:160])
+    pf, pg = fresh['pack'], got['pack']
+    if pf != pg and not (pf[0] == 'err' and pg[0] == 'err'):
+        def show(x):
+            return '%d bytes %s' % (len(x[1]), x[1].hex()[:64]) if x[0] == 'ok' else 'raises ' + x[1]
+        return 'pack', 'the parse consumed %d bytes; pack() of the re-used object: %s; of a new object: %s' % (
+            fresh['res'][1], show(pg), show(pf))
+    if got['size'] != fresh['size']:
+        return 'calcsize', 'calcsize() of the re-used object: %s, of a new object: %s' % (got['size'], fresh['size'])
+    return None
+
+
+def run_history(subj, hist, strict_first=False, packs=False):
+    """a new receiver taken through hist = [(buf, off), ...]; the observation after the last step"""
+    recv = subj.receiver()
+    for i, (buf, off) in enumerate(hist[:-1]):
+        if packs:
+            observe(subj, recv, buf, off)
+            continue
+        try:
+            if strict_first and i == 0 and subj.unpack_strict(recv, buf, off) is not None:
+                continue
+            subj.unpack_with(recv, buf, off)
+        except Exception:
+            pass
+    return observe(subj, recv, hist[-1][0], hist[-1][1])
+
+
+def reuse_replay_input(name, hist, strict_first=False, packs=False):
+    return {'kind': 'reuse', 'subject': name, 'history': [[b.hex(), off] for b, off in hist],
+            'strict_first': bool(strict_first), 'packs': bool(packs)}
+
+
+def reuse_replay(subj, r):
+    """(fresh, got, diff) for a replay record written by reuse_replay_input"""
+    hist = [(bytes.fromhex(h), off) for h, off in r['history']]
+    fresh = observe(subj, subj.receiver(), hist[-1][0], hist[-1][1])
+    got = run_history(subj, hist, r.get('strict_first', False), r.get('packs', False))
+    return fresh, got, reuse_diff(fresh, got)
+
+
+def truncations(bases, rng, thorough):
+    """prefixes of valid encodings: unpack refuses most of them, possibly after it has begun to update the receiver"""
+    out = []
+    for b in bases[:(8 if thorough else 4)]:
+        cuts = list(range(len(b)))
+        if len(cuts) > (60 if thorough else 16):
+            cuts = sorted(set(rng.sample(cuts, 56 if thorough else 12) + [0, 1, len(b) - 1, len(b) // 2]))
+        out += [b[:k] for k in cuts]
+    return out
+
+
+def reuse_phase(subj, encs, extra_a, rng, thorough, budget):
+    """Returns (counters, [(kind, detail, desc, replay)])."""
+    name = subj.name
+    cnt = {'reuse_items': 0, 'reuse_chain_steps': 0, 'reuse_pairs': 0, 'reuse_shape_classes': 0, 'reuse_value_classes': 0, 'reuse_refused_steps': 0}
+    out, seen_sig = [], set()
+
+    def report(detail, text, hist, strict_first=False, packs=False):
+        if detail in seen_sig:
+            return
+        seen_sig.add(detail)
+        a = hist[-2] if len(hist) > 1 else None
+        desc = 'after %d earlier unpack() call(s)%s into the same object (the last one of %s at offset %s), unpack() of %s at offset %d: %s' % (
+            len(hist) - 1, ', pack() and calcsize() after each,' if packs else '',
+            a[0][a[1]:].hex()[:96] if a else '-', a[1] if a else '-', hist[-1][0][hist[-1][1]:].hex()[:96], hist[-1][1], text)
+        out.append(('stale-state', detail, desc, reuse_replay_input(name, hist, strict_first, packs)))
+
+    items, seen = [], set()
+    for b0, can_b in [(b, True) for b in encs] + [(b, False) for b in extra_a]:
+        if b0 in seen:
+            continue
+        seen.add(b0)
+        off = rng.choice(OFFSETS)
+        post = b'' if (subj.greedy or not can_b) else rbytes(rng, rng.choice([0, 0, 6]))
+        buf = rbytes(rng, off) + b0 + post
+        fresh = observe(subj, subj.receiver(), buf, off)
+        again = observe(subj, subj.receiver(), buf, off)
+        if reuse_diff(fresh, again):         # not even two new objects agree: not a re-use matter, and not judged here
+            continue
+        items.append((buf, off, fresh, shape_key(subj, buf, off, fresh), value_key(fresh)))
+    cnt['reuse_items'] = len(items)
+    if not items:
+        return cnt, out
+
+    # ---- chains: one receiver, a long sequence, compared after every step
+    for rnd in range(3 if thorough else 2):
+        order = list(range(len(items)))
+        rng.shuffle(order)
+        recv = subj.receiver()
+        hist = []
+        for ix in order:
+            buf, off, fresh = items[ix][:3]
+            got = observe(subj, recv, buf, off)
+            hist.append((buf, off))
+            cnt['reuse_chain_steps'] += 1
+            if got['res'][0] == 'err':
+                cnt['reuse_refused_steps'] += 1
+            d = reuse_diff(fresh, got)
+            if d:
+                # the shortest recent history that shows it on a new object (without and with the pack() calls)
+                shown = False
+                for k in (1, 2, 3, 4, 8, 16, 64, len(hist) - 1):
+                    sub = hist[-(k + 1):]
+                    for packs in (False, True):
+                        d2 = reuse_diff(fresh, run_history(subj, sub, packs=packs))
+                        if d2:
+                            report(d2[0], d2[1], sub, packs=packs)
+                            shown = True
+                            break
+                    if shown or k >= len(hist) - 1:
+                        break
+                if not shown:
+                    report(d[0], d[1], list(hist), packs=True)
+                recv = subj.receiver()
+                hist = []
+
+    # ---- pairs: ordered pairs of shape classes
+    strict = type(subj).unpack_strict is not Subject.unpack_strict
+    for which, label in ((3, 'reuse_shape_classes'), (4, 'reuse_value_classes')):
+        classes = {}
+        for ix, it in enumerate(items):
+            classes.setdefault(it[which], []).append(ix)
+        keys = sorted(classes, key=repr)
+        kb = [k for k in keys if k[0] == 'ok']
+        cnt[label] = len(keys)
+        cap = budget * (4 if thorough else 2) // (1 if which == 3 else 2)
+        pairs = [(a, b) for a in keys for b in kb]
+        if len(pairs) > cap:
+            rng.shuffle(pairs)
+            pairs = pairs[:cap]
+        reps = max(2 if strict else 1, min(4, cap // max(1, len(pairs))))
+        for a, b in pairs:
+            for r in range(reps):
+                ia, ib = rng.choice(classes[a]), rng.choice(classes[b])
+                hist = [items[ia][:2], items[ib][:2]]
+                sf = strict and r % 2 == 1
+                got = run_history(subj, hist, strict_first=sf)
+                cnt['reuse_pairs'] += 1
+                d = reuse_diff(items[ib][2], got)
+                if d:
+                    report(d[0], d[1], hist, strict_first=sf)
+    return cnt, out
+
+
 def run_subject(args):
     """Pool work item.  Returns a dict with counters, violations [(sig, desc, replay)], samples."""
     name, seed, thorough, budget = args[:4]
@@ -1028,4 +1318,19 @@ def run_subject(args):
             if sig not in seen_sig:
                 seen_sig.add(sig)
                 res['violations'].append((sig, desc, {'subject': name, 'b0': b0.hex(), 'offsets': list(offs)}))
+    # ---- the same encodings into re-used objects
+    rrng = random.Random(zlib.crc32(name.encode()) * 104729 + seed)
+    try:
+        head = encs[:60]
+        firsts = head if len(head) <= 8 else head[:3] + rrng.sample(head[3:], 5)
+        cnt, found = reuse_phase(subj, encs, truncations(firsts, rrng, thorough), rrng, thorough, budget)
+    except Exception as e:
+        res['infra'] = 're-use phase failed for %s: %s' % (name, exc_name(e))
+        return res
+    res['reuse'] = cnt
+    for kind, detail, desc, rep in found:
+        sig = signature(name, kind, detail)
+        if sig not in seen_sig:
+            seen_sig.add(sig)
+            res['violations'].append((sig, desc, rep))
     return res
